@@ -30,6 +30,7 @@ func init() {
 			{ID: "C16-R6", Title: "membership tests inside a map loop are against another collection", Floor: 3, Run: c16r6},
 			{ID: "C16-R7", Title: "builtins do not sort or write the operand's own storage", Floor: 1, Run: builtinsDoNotMutateOperandStorage},
 			{ID: "C16-R8", Title: "script values are not compared by object identity", Floor: 5, Run: noIdentityComparisonOfScriptValues},
+			{ID: "C16-R9", Title: "container-valued operations return new objects", Floor: 3, Run: operationResultsAreNewObjects},
 		},
 	})
 }
